@@ -1024,6 +1024,33 @@ def stream_probe(rep, n):
             kept[:] = kept[-8:]
             del f
     rep.extra['stream_probe_frames'] = n - n % 3
+    # a jpg-backed frame whose declared size does not match its jpg: .image raises; whatever the frame holds afterwards still obeys
+    # the rules (a frame that has a jpg never has a writable image; .rw of it is a new frame)
+    for i, (dh, dw) in enumerate(((1, 0), (0, 1), (-1, 0), (2, 3))):
+        for fmt in ('BGR', 'RGB', 'GRAY'):
+            h, w = SIZES[1]
+            g = np.random.default_rng(9000 + i)
+            px = g.integers(0, 256, size=(h, w) if fmt == 'GRAY' else (h, w, 3), dtype=np.uint8)
+            f = Frame.from_jpg(bytes(encode(px)), {}, h + dh, w + dw, fmt)
+            rep.case(('wrong-size', fmt, dh, dw))
+            rep.traces += 1
+            obs = []
+            for attempt in (1, 2):
+                try:
+                    img = f.image
+                    if f.has_jpg and img.flags.writeable:
+                        obs.append(f'access {attempt}: the frame has a jpg and hands out a WRITABLE image')
+                    r = f.rw
+                    if r is f or (r.has_image and np.shares_memory(r.image, img)):
+                        obs.append(f'access {attempt}: .rw of the jpg-backed frame is not a new frame with its own pixels')
+                except AssertionError:
+                    pass
+                except Exception as e_:   # noqa
+                    obs.append(f'access {attempt}: {type(e_).__name__}: {str(e_)[:100]}')
+            if obs:
+                rep.violation(f'JpgOnlyOnFrozen: from_jpg with declared size {h + dh}x{w + dw} for a {h}x{w} {fmt} jpg: ' + '; '.join(obs[:2]),
+                              {'mode': 'stream', 'fmt': fmt, 'declared': [h + dh, w + dw], 'actual': [h, w]},
+                              {'family': 'wrong_size', 'kind': 'jpg_on_writable'})
 
 
 def replay(ctx):
